@@ -87,6 +87,11 @@ def _np_setdiff1d(eng, args, kwargs):
     numpy 2.x on 20 000 random inputs with repeated `b` values)."""
     a, b = args[0], args[1]
     au = kwargs.get("assume_unique", args[2] if len(args) > 2 else False)
+    if all(isinstance(x, NArr) and x.ndim == 1 and all(isinstance(i, int) and not isinstance(i, bool) for i in x.items) for x in (a, b)) and isinstance(au, bool):
+        # concrete integer arrays (fixed-topology variants): numpy itself computes the result
+        eng.assumptions.add("numpy-model:np.setdiff1d on concrete integer arrays: evaluated by numpy itself")
+        r = np.setdiff1d(np.array(a.items, dtype=np.int64), np.array(b.items, dtype=np.int64), assume_unique=au)
+        return NArr((len(r),), [int(i) for i in r], "int")
     if not (isinstance(a, SArr) and isinstance(b, SArr)):
         raise Unsupported("np.setdiff1d on non-symbolic arrays")
     if au is not True:
